@@ -175,6 +175,8 @@ struct request
 {
     std::string op, type, e, hex;
     bool force;
+    size_t off;     /* the input of decode starts `off` bytes behind an aligned address */
+    size_t eoff;    /* the destination of encode(void*) starts `eoff` bytes behind an aligned address */
     std::vector<std::pair<std::string, size_t> > grow;
 };
 
@@ -233,7 +235,8 @@ static void process(const ops& o, const request& rq)
     std::string out = "{";
     /* exact-size heap copy of the input: ASan sees any out-of-bounds read */
     size_t size = rq.hex.size() / 2;
-    uint8_t* data = static_cast<uint8_t*>(malloc(size ? size : 1));
+    uint8_t* data_block = static_cast<uint8_t*>(malloc(size + rq.off ? size + rq.off : 1));
+    uint8_t* data = data_block + rq.off;
     for (size_t i = 0; i < size; ++i)
         data[i] = uint8_t(hexval(rq.hex[2 * i]) << 4 | hexval(rq.hex[2 * i + 1]));
     int e = rq.e == "little" ? 1 : rq.e == "big" ? 2 : 0;
@@ -268,7 +271,8 @@ static void process(const ops& o, const request& rq)
             out += ", \"encoded_byte_size\": "; put_num(out, o.encoded_byte_size);
 
             size_t cap = bs + 64;
-            uint8_t* buf = static_cast<uint8_t*>(malloc(cap));
+            uint8_t* block = static_cast<uint8_t*>(malloc(cap + rq.eoff));
+            uint8_t* buf = block + rq.eoff;
             memset(buf, 0xAA, cap);
             size_t written = o.encode_ptr(obj, buf);
             bool overrun = false;
@@ -276,7 +280,7 @@ static void process(const ops& o, const request& rq)
             out += ", \"ptr_written\": "; put_unum(out, written);
             out += overrun ? ", \"overrun\": true" : ", \"overrun\": false";
             out += ", \"ptr_bytes\": "; put_hex(out, buf, bs);
-            free(buf);
+            free(block);
 
             buf = static_cast<uint8_t*>(calloc(cap, 1));
             size_t written0 = o.encode_ptr(obj, buf);
@@ -321,7 +325,7 @@ static void process(const ops& o, const request& rq)
         put_str(out, what);
     }
     o.destroy(obj);
-    free(data);
+    free(data_block);
     out += "}";
     emit(out);
 }
@@ -351,12 +355,16 @@ static bool parse(const std::string& line, request& rq)
     if (tok.size() < 4) return false;
     rq.op = tok[0]; rq.type = tok[1]; rq.e = tok[2]; rq.hex = tok[3] == "-" ? std::string() : tok[3];
     rq.force = false;
+    rq.off = 0;
+    rq.eoff = 0;
     rq.grow.clear();
     if (rq.hex.size() %% 2) return false;
     for (size_t k = 0; k < rq.hex.size(); ++k) if (hexval(rq.hex[k]) < 0) return false;
     for (size_t k = 4; k < tok.size(); ++k)
     {
         if (tok[k] == "force") { rq.force = true; continue; }
+        if (tok[k].compare(0, 4, "off=") == 0) { rq.off = size_t(atoi(tok[k].c_str() + 4)); continue; }
+        if (tok[k].compare(0, 5, "eoff=") == 0) { rq.eoff = size_t(atoi(tok[k].c_str() + 5)); continue; }
         size_t eq = tok[k].find('=');
         if (eq == std::string::npos) return false;
         rq.grow.push_back(std::make_pair(tok[k].substr(0, eq),
@@ -564,10 +572,11 @@ def fault_string(stderr_text, returncode, base='s0', repo=None, max_frames=3):
 # ----------------------------------------------------------------------------- batch
 
 class FullBatch(object):
-    def __init__(self, schema_text, type_names, base='s0', trees=None, sanitize=True, jobs_hint=1, opt='-O1'):
+    def __init__(self, schema_text, type_names, base='s0', trees=None, sanitize=True, jobs_hint=1, opt='-O1', san_flags=None):
         """jobs_hint >= 2: the two translation units are compiled in parallel;
         opt: optimisation flag ('-O1' is the reference; '-O0' builds about 2.5 times faster)"""
         self.opt = opt
+        self.san_flags = list(SAN_FLAGS if san_flags is None else san_flags)
         self.schema_text = schema_text
         self.type_names = list(type_names)
         self.base = base
@@ -593,7 +602,7 @@ class FullBatch(object):
     def flags(self):
         fl = [self.opt if f == '-O1' else f for f in BASE_FLAGS]
         if self.sanitize:
-            fl += SAN_FLAGS
+            fl += self.san_flags
         fl.append('-I' + os.path.join(self.repo, 'prophy_cpp', 'include'))
         return fl
 
@@ -745,6 +754,10 @@ class FullBatch(object):
         toks = [op, t, e, data or '-']
         if rq.get('force_enc'):
             toks.append('force')
+        if rq.get('off'):
+            toks.append('off=%d' % int(rq['off']))
+        if rq.get('eoff'):
+            toks.append('eoff=%d' % int(rq['eoff']))
         for k, v in sorted((rq.get('grow') or {}).items()):
             if not _IDENT.match(k):
                 raise ValueError('bad grow field %r' % (k,))
